@@ -25,6 +25,7 @@ import (
 	"math/rand"
 	"os"
 	"runtime"
+	"runtime/pprof"
 	"sort"
 	"strings"
 	"sync"
@@ -193,6 +194,7 @@ func (c *caseCtx) execute(freezeAt int64, live func(inst *instance, call inject.
 			res.acked[op.Blob] = true
 		} else {
 			if !inst.plan.Frozen() {
+				lw.release()
 				return nil, nil, fmt.Errorf("receive of %v (op %d) failed without any injected fault: %v", b.Ref, oi, rerr)
 			}
 			if !res.acked[op.Blob] {
@@ -208,6 +210,7 @@ func (c *caseCtx) execute(freezeAt int64, live func(inst *instance, call inject.
 	inst.plan.After = nil
 	res.calls = inst.plan.Calls() - base
 	res.log = inst.plan.Log()
+	inst.plan.ResetLog() // the incarnation stays reachable from perkeep's hub table
 	for i := range res.log {
 		res.log[i].Index -= base
 	}
@@ -452,6 +455,8 @@ func (c *caseCtx) reopen(s *site, lw *lower) *instance {
 		s.viol("recovery-fails/"+s.tail(), fmt.Sprintf("constructing blobpacked over the crash state failed: %v", err))
 		return nil
 	}
+	inst.auditing.Store(true) // no fault plan after a restart: do not count or log the lower calls
+	inst.plan.ResetLog()
 	return inst
 }
 
@@ -692,6 +697,11 @@ func run(r *ev.Run) {
 		log.SetOutput(io.Discard)
 	}
 	defer blobpacked.SetRecovery(blobpacked.NoRecovery)
+	if pf := os.Getenv("VERIF_C04_PROF"); pf != "" {
+		f, _ := os.Create(pf)
+		pprof.StartCPUProfile(f)
+		defer pprof.StopCPUProfile()
+	}
 	workers := runtime.GOMAXPROCS(0)
 	if workers > 16 {
 		workers = 16
@@ -771,12 +781,15 @@ func run(r *ev.Run) {
 			for si, st := range c.order {
 				for _, v := range mp.variants {
 					c, st, v := c, st, v
-					// the re-upload + third restart is done for every state in the thorough tier and
-					// for every second one in the quick tier
-					deep := r.Thorough() || si%2 == 0 || st.Phase == "meta-batch" || st.Phase == "loose-deletion" || st.Phase == "whole-row" || st.Phase == "zip-store"
-					if strings.HasPrefix(v, "zips-alone") && len(st.sn.Large) == 0 && len(st.sn.Meta) == 0 {
-						continue // nothing packed and no meta: identical to the plain variant
+					packedState := len(st.sn.Large) > 0
+					if !packedState && (strings.HasPrefix(v, "zips-alone") || (v != "none" && si%4 != 0)) {
+						// nothing packed yet: a recovery has nothing to rebuild; every fourth such
+						// state is still restarted in fast and full mode
+						continue
 					}
+					// the re-upload + third restart: every state with zips; every fourth (quick) or
+					// second (thorough) state without
+					deep := packedState || si%r.Pick(4, 2) == 0
 					p.Go(func() { c.auditState(st, v, deep) })
 				}
 			}
